@@ -374,7 +374,8 @@ fn apply(top: &BoxRec, op: &Value, handles: &mut Vec<AnyHandle>) -> Value {
 }
 
 fn parse_f64(s: &str) -> f64 {
-    if let Some(hex) = s.strip_prefix("bits:") {
+    // "bits:<hex>" (random programs) or the canonical "<debug>/<hex>" of a trace (replay of a failing run)
+    if let Some(hex) = s.strip_prefix("bits:").or_else(|| s.split_once('/').map(|x| x.1)) {
         f64::from_bits(u64::from_str_radix(hex, 16).expect("harness: f64 bits"))
     } else {
         s.parse().expect("harness: f64 value")
